@@ -203,7 +203,7 @@ fn attach(r: &mut Rng, nchan: usize, nreg: usize, want_senders: bool, want_recei
     let mut regs = Vec::new();
     for _ in 0..nreg {
         let id = r.next();
-        let len = *r.pick(&[1usize, 33, 4096, 5000]);
+        let len = *r.pick(&[0usize, 1, 33, 4096, 5000]);
         regs.push(OsIpcSharedMemory::from_bytes(&body(id, len)));
         att.region_ids.push((id, len));
     }
@@ -371,6 +371,7 @@ pub fn run(ctx: &Ctx) {
             continue;
         }
         rep.raw(json!({"t":"journal","case":case}));
+        let _g = op_begin("decode-injected-message", case);
         let mut r = Rng::derive(ctx.seed, 0xc16, case);
         let ty = r.below(13) as usize;
         let input_kind = r.below(6) as u8; // 0 random bytes, 1 valid, 2 mutated valid, 3 tampered indices, 4 valid encoding of another type, 5 receive-and-drop
